@@ -444,10 +444,10 @@ func emitObs(id string, k caseT, res string, ok bool, st *hx.Stats) string {
 	}
 	mh := c.MaxHops
 	if mh <= 0 {
-		mh = 1
+		mh = 1 // (only for the non-triviality classification below: the MODEL normalises the configured value itself)
 	}
 	peer := peerOf(q.Remote)
-	l := hx.NewLine(id).Nat(mh).Str(q.Remote).Nat(len(headers))
+	l := hx.NewLine(id).I64(int64(c.MaxHops)).Str(q.Remote).Nat(len(headers))
 	nontrivial := false
 	// the `net` table: every candidate item of every configured header, classified for real
 	tbl := map[string]bool{}
